@@ -63,8 +63,12 @@ def classify(family, m):
         v = m["vector"]
         if m["observed"] == "panic":
             return "header-accept-panic", "presenting %s makes the session constructor panic (%s)" % (m["bytes"][:120], m["detail"][:80])
-        return "header-accept-verdict", "header %s (%s, %s): expected %s, observed %s" % (
-            m["bytes"][:160], v["in"]["role"], v["in"]["framing"], v["exp"], m["observed"])
+        if m.get("info") and (v["exp"] != "reject" or m["observed"] != "accept"):
+            return "header-accept-recovered-values", "header %s (%s, %s) is accepted and %s" % (
+                m["bytes"][:200], v["in"]["role"], v["in"]["framing"], "; ".join(m["info"][:2]))
+        return "header-accept-verdict", "header %s (%s, %s): expected %s, observed %s%s" % (
+            m["bytes"][:200], v["in"]["role"], v["in"]["framing"], v["exp"], m["observed"],
+            (" (" + "; ".join(m["info"][:2]) + ")") if m.get("info") else "")
     d = m["diffs"]
     if family == "bind-init" and all(x.startswith("requested resourcepart") for x in d):
         return "bind-request-drops-resource", "bind request does not ask for the session's own resourcepart: " + d[0]
@@ -101,6 +105,11 @@ def selftest(ctx, files):
     v = first(files["accept_vectors.ndjson"], lambda v: v["exp"] == "reject" and v["in"]["name"] == "othername")
     v["exp"] = "streamerror"
     cases.append(("header-accept", v, lambda m: m["observed"] == "reject"))
+    # (the values an accepting session recovered: a header without id next to a look-alike of the id, declared to carry one)
+    v = first(files["accept_vectors.ndjson"], lambda v: v["in"]["role"] == "recv" and v["in"]["look"]["id"] == "foreign_before"
+              and v["in"]["id"] == "absent" and v["in"]["version"]["parts"] == [[1], [0]] and v["in"]["from"] == "valid")
+    v["info"]["id"] = "real"
+    cases.append(("header-accept", v, lambda m: m["observed"] == "accept" and any("In() id" in x for x in m["info"])))
     v = first(files["bind_init.ndjson"], lambda v: v["in"]["kind"] == "result" and v["in"]["res"] == [])
     v["exp"]["addr"] = {"own": "otheraccount", "otherres": "own", "otheraccount": "own"}[v["exp"]["addr"]]
     cases.append(("bind-init", v, lambda m: any(x.startswith("LocalAddr()") for x in m["diffs"])))
@@ -127,14 +136,20 @@ def selftest(ctx, files):
 
 def nonvacuous(ctx, quick):
     runs = [("MCHeader", HEADER_A, "RawAttributes", "C12_EmitWellFormed"),
+            # (version numbers read into eight bits; attributes selected by their local name: over the vectors of
+            # those two dimensions only)
+            ("MCHeader", HEADER_B.replace("SpecB", "SpecBV"), "VersionModulo256", "C12_AcceptOnlyIf"),
+            ("MCHeader", HEADER_B.replace("SpecB", "SpecBV"), "LocalNameOnly", "C12_AcceptOnlyIf"),
             ("MCBind", BIND % "SpecInit", "DropResource", "C12_BindRequestOwn"),
             ("MCBind", BIND_SHARED, "ResourcePerFeature", "C12_BindFresh")]
     if not quick:
         runs += [("MCHeader", HEADER_B, "AcceptOldVersion", "C12_AcceptOnlyIf"),
                  ("MCBind", BIND % "SpecInit", "IgnoreId", "C12_BindAdoptAssigned")]
-    for mod, cfg, dev, inv in runs:
+    def one(run):
+        mod, cfg, dev, inv = run
         consts = BCONSTS % (1, 2, ac.dev_set([dev])) if mod == "MCBind" else CONSTS % (1, ac.dev_set([dev]))
-        r = ctx.tlc(mod, consts + cfg, timeout=300, name=mod)
+        return ctx.tlc(mod, consts + cfg, timeout=300, name=mod, workers=4)
+    for (mod, cfg, dev, inv), r in zip(runs, ac.parallel(one, runs)):
         if inv not in r.violated:
             raise verif.Undecided("non-vacuity: deviation %s does not violate %s:\n%s" % (dev, inv, r.out[-1500:]))
     return len(runs)
@@ -214,7 +229,7 @@ def run(ctx):
         "distinct_nontrivial": sum(t["distinct"] for t in totals.values()),
         "by_family": totals, "mismatches_by_class": {k: len(v) for k, v in per_class.items()},
         "nonvacuity_runs_violating": nv, "binding_selftest_corruptions_reported": nself,
-        "exhaustive": "emission through one Negotiator value shared by 2-3 successive sessions with different addresses (constant and per-session configuration function, both roles, c2s/s2s, both framings); emission: special characters (' & < > \") in every position of resourceparts / language strings up to length %d, one value at a time and all together, both roles, c2s/s2s, TCP and WebSocket framing; acceptance: full product of role x framing x element name x default namespace x version x id x to x from x prefix (declaration / whitespace) + stream errors; bind: every own resourcepart up to length %d x 12 reply kinds x 3 assigned addresses, 2 request ids x requested resources x 7 callback behaviours; shared feature list values (one or two values: BindResource(), BindCustom(nil), callbacks): 2 sessions x every interleaving x accounts x requests, 3 sessions x every interleaving x accounts, 4 sessions (%s), sessions of one feature value sharing the Negotiator or only the feature list; assigned resourceparts of default binds compared pairwise across sessions, accounts and feature values" % (n, n, "successive / all open before the first bind / nested / mixed" if quick else "every interleaving"),
+        "exhaustive": "emission through one Negotiator value shared by 2-3 successive sessions with different addresses (constant and per-session configuration function, both roles, c2s/s2s, both framings); emission: special characters (' & < > \") in every position of resourceparts / language strings up to length %d, one value at a time and all together, both roles, c2s/s2s, TCP and WebSocket framing; acceptance: full product of role x framing x element name x default namespace x version x id x to x from x prefix (declaration / whitespace) + stream errors; version attribute: every pair (major, minor) of 37 number forms (0 1 9 10 255 256 257 512 513 65536 65537 2^32 2^32+1 2^64 2^64+1, 41-digit numbers, leading zeros, signs, blanks, nothing, letters), one part only, three parts, x both roles x both framings; look-alike attributes: for id / version / from / to / xml:lang a foreign-namespace attribute of the same local name (in front of or behind the real one) or a declaration of a prefix of that name, next to every combination of present and absent real attributes (one look-alike) and next to all / none of them (two look-alikes), both roles, both framings - verdict AND the values an accepting session recovered (In(), RemoteAddr()/LocalAddr(), the answering header) compared; bind: every own resourcepart up to length %d x 12 reply kinds x 3 assigned addresses, 2 request ids x requested resources x 7 callback behaviours; shared feature list values (one or two values: BindResource(), BindCustom(nil), callbacks): 2 sessions x every interleaving x accounts x requests, 3 sessions x every interleaving x accounts, 4 sessions (%s), sessions of one feature value sharing the Negotiator or only the feature list; assigned resourceparts of default binds compared pairwise across sessions, accounts and feature values" % (n, n, "successive / all open before the first bind / nested / mixed" if quick else "every interleaving"),
         "rule": "vector families: TLC writes input and expectation, the driver compares the real sessions' behaviour with it; every mismatch is re-run once",
         "samples": samples[:3],
         "part_c": "restart header address rule: covered by the negotiation family (Negotiation.tla C12_EstabStable), not run here",
